@@ -1358,6 +1358,18 @@ class Message(ABC):
             field_name = proto_meta.field_name_by_number.get(parsed.number)
             if not field_name:
                 self._unknown_fields += parsed.raw
+                # unknown fields count towards the size of the message as well
+                if size is not None:
+                    prev = read
+                    read += len(parsed.raw)
+                    if read == size:
+                        break
+                    elif read > size:
+                        raise ValueError(
+                            f"Expected message of size {size}, can only read "
+                            f"either {prev} or {read} bytes - there is no "
+                            "message of the expected size in the stream."
+                        )
                 continue
 
             meta = proto_meta.meta_by_field_name[field_name]
